@@ -19,6 +19,8 @@ PAIRS = [
     ("same_atom", '$a = "abcd"', ['$b = "abcd"'], []),
     ("failure_link", '$a = "aab"', ['$b = "ab"'], ['$c = "b"']),
     ("overlap", '$a = "aba"', [], ['$b = "bab"']),
+    # the failure link from "abc" (child 'h') to "bc" (child 'i') must survive the subset optimisation
+    ("needed_failure_link", '$a = "bci"', ['$b = "abch"'], []),
 ]
 
 
@@ -49,5 +51,12 @@ def pair_h(name, rstr, before, after, N):
 
 def harnesses(ctx, tier):
     N = 4   # one 2-string pair at 5 bytes costs ~700 s / 10 GB; 3-string sets do not finish in 900 s at 4 bytes
-    pairs = [p for p in PAIRS if p[0] in ("prefix", "suffix", "same_atom", "overlap")] if tier == "thorough" else [p for p in PAIRS if p[0] in ("prefix", "suffix")]
-    return [pair_h(*p, N=N) for p in pairs]
+    pairs = [p for p in PAIRS if p[0] in ("prefix", "suffix", "same_atom", "overlap", "needed_failure_link")] if tier == "thorough" else [p for p in PAIRS if p[0] in ("prefix", "suffix", "needed_failure_link")]
+    hs = [pair_h(*p, N=N) for p in pairs]
+    hs.append(Harness(name="H3_transitions_subset", src="c05/ac_leaf.c", defines=["-DVF_MODE=1"], unwind=5, timeout=300,
+                      desc="_yr_ac_transitions_subset on two arbitrary child lists (<= 3 children, any bytes)", bounds="<= 3 children per state, all input bytes",
+                      functions=["_yr_ac_transitions_subset"]))
+    hs.append(Harness(name="H4_transition_encoding", src="c05/ac_leaf.c", defines=["-DVF_MODE=2"], unwind=3, timeout=300,
+                      desc="YR_AC_MAKE_TRANSITION / NEXT_STATE / INVALID_TRANSITION are inverse", bounds="state < 2^23, input code 0..256",
+                      functions=["YR_AC_MAKE_TRANSITION", "YR_AC_NEXT_STATE", "YR_AC_INVALID_TRANSITION"]))
+    return hs
